@@ -80,6 +80,7 @@ theorem admin_step (s : State) (m : Move) (h : Inv s) (ha : assumed s m = true) 
   | deleteApp kind ns app => rfl
   | setPool name size => simp only [step]; cases size <;> rfl
   | listerSync pods apps => simp only [step]; split <;> split <;> rfl
+  | fipSync => rfl
   | dropEvent i => simp only [step]; split <;> rfl
   | filter ns name nodes ch fault => exact filter_admin _ ns name nodes ch (h0 fault 0).coh
   | preempt ns name nodes ch fault => exact preempt_admin _ ns name nodes ch (h0 fault 0).coh
